@@ -29,6 +29,11 @@ class _BitVector(type):
 
     @_intrinsic
     def __getitem__(cls, size: int | slice):
+        # subscripting an already parametrised class (BitVector[3][4]) refers to the family,
+        # the new class must not inherit from (or be cached relative to) the class it was reached through
+        if "_SubTypes" not in vars(cls):
+            cls = next((c for c in cls.__mro__ if "_SubTypes" in vars(c)), cls)
+
         if isinstance(size, slice):
             assert size.step is None, "step parameter not allowed in slice argument"
             assert isinstance(size.start, int), "start parameter must be integer"
